@@ -29,7 +29,7 @@ func init() {
 		ID: "C08",
 		Rule: "exhaustive blocks: (1) all 64 subsets of the response keys {200,201,2XX,4XX,404,default} × 18 status codes (incl. 99,100,599,600,0,-1 and the four skipped codes) × strict × GET/HEAD, " +
 			"each entry tagged by its own required header so that the entry chosen is observable (response without headers, and response carrying every tag header but one: rejected exactly when that entry is selected), other class keys (1XX,3XX,5XX,6XX,2xx,XXX) × boundary codes; " +
-			"(2) 20 header kinds (string, integer, boolean, untyped, arrays of integer/string/boolean/untyped/object/array items, array without items, objects with write-only / read-only properties, described by content) × raw texts chosen for the decoder (signs, leading zeros, base prefixes, underscores, blanks, int64 bounds, the twelve ParseBool words and near-misses, empty and unparsable array items in every position) × required × present/absent × options, a second value of the same header, pairs of failing headers in both name orders, the ignored Content-Type header, a non-canonical declared name; " +
+			"(2) 20 header kinds (string, integer, boolean, untyped, arrays of integer/string/boolean/untyped/object/array items, array without items, objects with write-only / read-only properties, described by content) × raw texts chosen for the decoder (signs, leading zeros, base prefixes, underscores, blanks, int64 bounds, the twelve ParseBool words and near-misses, empty and unparsable array items in every position) × required × present/absent × options, a second value of the same header, a header key present without any value, an unresolved response entry, pairs of failing headers in both name orders, the ignored Content-Type header, a non-canonical declared name; " +
 			"(3) 12 content maps × 17 Content-Type values (registered JSON types, the two text decoders, unregistered types, parameters, a blank before ';', upper case, no slash, empty) × 7 bodies × ExcludeResponseBody; failing body reader; (4) object schemas with all subsets of required ⊆ {a,ro,wo,z} × all key subsets of {a,ro,wo,x} × null/non-null write-only value × additionalProperties {absent,false,schema} × options, at top level, nested under a property, inside an array and under additionalProperties; " +
 			"then a seeded random stream of methods (only the exact HEAD is skipped), option sets (incl. Options == nil and a custom schema-error function), response maps, headers (kind × listed or free text over the decoder's alphabet), schemas of depth ≤ 3 and schema-directed values (valid and mutated). " +
 			"A case is non-trivial when the model reports at least one non-default branch (skip, selection kind, option in effect, header decoding outcome, header/body outcome, decoder kind, schema flags).",
@@ -42,7 +42,7 @@ func init() {
 			"the JSON body decoder (encoding/json, C06) is an input of the model: each case states its outcome, computed by encoding/json in the generator and tied by the comparison itself",
 			"the decoding of every header (untyped, primitive, array, flat object; plain and exploded) is computed by the model (decodeHeader) and compared with the real decoder (verif hook) on every case; the one corner left as an input (a schema applied to the empty property name) is never generated",
 			"numbers in schemas and bodies are small integers (no float rounding); header integers range over int64 and beyond; strings are ASCII",
-			"documents are resolved (no nil ResponseRef.Value / SchemaRef.Value); headers use the default (simple, not exploded) serialization; every present header has at least one value and only the first is decoded",
+			"schemas and headers are resolved (no nil SchemaRef.Value / HeaderRef.Value; an unresolved ResponseRef is generated and modelled); headers use the default (simple, not exploded) serialization; only the first value of a header is decoded; keys present without any value are generated and modelled",
 			"no Content-Type whose registered decoder is YAML, CSV, urlencoded, multipart or zip is generated (their outcome would be an input of the model as well)",
 		},
 	})
@@ -148,6 +148,8 @@ func c08ErrClass(err error) any {
 	switch {
 	case r == "status is not supported":
 		return "status"
+	case r == "response has not been resolved":
+		return "unresolved"
 	case r == "failed to read response body":
 		return "bodyRead"
 	case r == "failed to decode response body":
@@ -174,7 +176,7 @@ func runC08(c hx.Case) any {
 	hdr := http.Header{}
 	for _, p := range jlist(c["hdrs"]) {
 		kv := jlist(p)
-		if len(kv) >= 2 {
+		if len(kv) >= 1 { // [name] alone: the key is present with no value at all
 			k, _ := kv[0].(string)
 			if _, dup := hdr[http.CanonicalHeaderKey(k)]; !dup {
 				vals := []string{}
@@ -192,6 +194,10 @@ func runC08(c hx.Case) any {
 		key := jstr(rm, "key")
 		if responses.Value(key) != nil {
 			continue // a Go map holds one entry per key: the first one, as in the model's lookup
+		}
+		if jbool(rm, "unresolved") { // a reference that was never resolved: the entry exists, its Value is nil
+			responses.Set(key, &openapi3.ResponseRef{Ref: "#/components/responses/Missing"})
+			continue
 		}
 		desc := ""
 		resp := &openapi3.Response{Description: &desc}
@@ -300,6 +306,8 @@ func c08RealDecode(hdr http.Header, name string, h *openapi3.Header) (got string
 		got = "err"
 	case val == nil:
 		got = "nil"
+	case c08NilMap(val):
+		got = "val:{}" // DecodeObject's nil map inside a non-nil interface: the validator sees an object without keys
 	default:
 		got = "val:" + c08Canon(val)
 	}
@@ -308,6 +316,8 @@ func c08RealDecode(hdr http.Header, name string, h *openapi3.Header) (got string
 	}
 	return got
 }
+
+func c08NilMap(v any) bool { m, ok := v.(map[string]any); return ok && m == nil }
 
 // the model's decoding outcome in the same notation
 func c08DecString(d map[string]any) string {
@@ -564,6 +574,18 @@ func genC08(ctx *hx.Ctx, emit func(hx.Case)) {
 			}
 		}
 	}
+	// an entry whose reference was never resolved, chosen or not, under every option
+	for _, st := range []int{200, 201, 404, 301} {
+		for o := 0; o < 16; o++ {
+			un := c08Resp("2XX", nil, nil)
+			un["unresolved"] = true
+			ok := c08Resp("200", []any{c08Hdr("X-K", true, c08S("type", "string"), c08Err)}, nil)
+			def := c08Resp("default", nil, nil)
+			def["unresolved"] = true
+			emit(c08Case("GET", st, []any{un, ok, def}, []any{[]any{"X-K", "v"}}, "", c08Err, o))
+			emit(c08Case("HEAD", st, []any{un, def}, []any{}, "", c08Err, o))
+		}
+	}
 	// other class patterns
 	for _, k := range []string{"1XX", "3XX", "5XX", "6XX", "2xx", "XXX"} {
 		for _, st := range []int{100, 101, 199, 302, 399, 500, 599, 600, 699, 200} {
@@ -594,6 +616,13 @@ func genC08(ctx *hx.Ctx, emit func(hx.Case)) {
 			}
 		}
 	}
+	for _, hk := range kinds { // the header key is present with no value at all
+		for _, req := range []bool{false, true} {
+			emit(c08Case("GET", 200, []any{c08Resp("200", []any{c08Hdr("X-A", req, hk.schema, c08Err)}, nil)}, []any{[]any{"X-A"}}, "", c08Err, 0))
+		}
+	}
+	emit(c08Case("GET", 200, []any{c08Resp("200", []any{c08Hdr("X-A", true, nil, c08Err)}, nil)}, []any{[]any{"X-A"}}, "", c08Err, 0))
+	emit(c08Case("GET", 200, []any{c08Resp("200", nil, []any{c08MT("*/*", c08S("type", "integer")), c08MT("application/json", c08S("type", "string"))})}, []any{[]any{"Content-Type"}}, "7", c08JSONDec("7"), 0))
 	for _, second := range []string{"x", "", "9"} { // a second value of the header is never looked at
 		emit(c08Case("GET", 200, []any{c08Resp("200", []any{c08Hdr("X-A", true, c08S("type", "integer", "maximum", 9), c08Err)}, nil)}, []any{[]any{"X-A", "5", second}}, "", c08Err, 0))
 		emit(c08Case("GET", 200, []any{c08Resp("200", []any{c08Hdr("X-A", true, c08S("type", "integer", "maximum", 9), c08Err)}, nil)}, []any{[]any{"X-A", "x", "5"}}, "", c08Err, 0))
@@ -920,7 +949,9 @@ func c08Random(r *hx.Rng, kinds []c08HK) hx.Case {
 					raw += hx.Pick(r, alphabet)
 				}
 			}
-			if r.Chance(8) {
+			if r.Chance(3) {
+				hd = append(hd, []any{name}) // present, no values
+			} else if r.Chance(8) {
 				hd = append(hd, []any{name, raw, hx.Pick(r, []string{"zzz", "", "7"})}) // a second value of the same header
 			} else {
 				hd = append(hd, []any{name, raw})
@@ -961,7 +992,11 @@ func c08Random(r *hx.Rng, kinds []c08HK) hx.Case {
 				content = append(content, c08MT(m, sch))
 			}
 		}
-		resps = append(resps, c08Resp(k, hs, content))
+		rs := c08Resp(k, hs, content)
+		if r.Chance(4) {
+			rs["unresolved"] = true
+		}
+		resps = append(resps, rs)
 	}
 	status := hx.Pick(r, []int{200, 200, 201, 204, 404, 400, 500, 302, 304, 301, 100, 600, 99})
 	method := hx.Pick(r, []string{"GET", "GET", "GET", "GET", "POST", "DELETE", "OPTIONS", "head", "Head"}) // only the exact "HEAD" is skipped
